@@ -20,6 +20,12 @@ import py2lean  # noqa: E402
 
 # specs/<name>.py each define  MODULE = ("LeanModuleName", "path/in/repo.py", [function specs
 # in dependency order]); see specs/atmosphere.py for the spec keys.
+def OUT_ROOT():
+    """directory holding the lake packages that receive the generated files (default /verif/lean;
+    PY2LEAN_OUT_ROOT redirects the output to scratch copies — used by the translator's own tests)"""
+    return os.environ.get("PY2LEAN_OUT_ROOT") or os.path.join(ROOT, "lean")
+
+
 def load_modules(spec_dir="specs"):
     mods = {}
     d = os.path.join(HERE, spec_dir)
@@ -184,7 +190,7 @@ def generate(package="numeric", spec_dir="specs"):
         cflt.append(f"/-- typhon.constants.{n} = {v!r} -/\ndef {py2lean.san(n)} : Float := Float.ofBits 0x{py2lean.float_bits(v):016X}\n")
     creal.append("end C\n")
     cflt.append("end CF\n")
-    base = os.path.join(ROOT, "lean", package)
+    base = os.path.join(OUT_ROOT(), package)
     changed = []
     if write_if_changed(os.path.join(base, "GenReal", "Constants.lean"), "\n".join(creal)):
         changed.append("GenReal/Constants.lean")
